@@ -42,10 +42,11 @@ const (
 	KOnOff   // bool-kinded type with UnmarshalFlag/MarshalFlag ("on"/"off"): takes an argument although its kind is bool
 	KRes     // string-kinded type whose UnmarshalFlag lower-cases and rejects texts containing '!' (also used as a map key)
 	KBag     // struct whose UnmarshalFlag appends to what it holds (an accumulating unmarshaler)
+	KMode    // struct with state: its Complete method offers the values stored IN THE VALUE (used behind a pre-allocated pointer)
 	numTK
 )
 
-var tkNames = [...]string{"string", "bool", "int", "int8", "int16", "int32", "int64", "uint", "uint8", "uint16", "uint32", "uint64", "float32", "float64", "Duration", "Celsius", "Point", "Vocab", "Picky", "OnOff", "Res", "Bag"}
+var tkNames = [...]string{"string", "bool", "int", "int8", "int16", "int32", "int64", "uint", "uint8", "uint16", "uint32", "uint64", "float32", "float64", "Duration", "Celsius", "Point", "Vocab", "Picky", "OnOff", "Res", "Bag", "Mode"}
 
 func (k TK) String() string { return tkNames[k] }
 
@@ -188,6 +189,24 @@ type PErr struct{ msg string }
 
 func (e *PErr) Error() string { return e.msg }
 
+// ModeVal completes from the list it carries: a fresh zero value completes nothing.
+type ModeVal struct {
+	allowed []string
+	v       string
+}
+
+func (m *ModeVal) UnmarshalFlag(s string) error { m.v = s; return nil }
+
+func (m *ModeVal) Complete(match string) []flags.Completion {
+	var ret []flags.Completion
+	for _, w := range m.allowed {
+		if strings.HasPrefix(w, match) {
+			ret = append(ret, flags.Completion{Item: w})
+		}
+	}
+	return ret
+}
+
 type Bag struct{ items []string }
 
 func (b *Bag) UnmarshalFlag(s string) error {
@@ -251,6 +270,8 @@ func scalarType(k TK) reflect.Type {
 		return reflect.TypeOf(Res(""))
 	case KBag:
 		return reflect.TypeOf(Bag{})
+	case KMode:
+		return reflect.TypeOf(ModeVal{})
 	}
 	panic("bad TK")
 }
